@@ -418,11 +418,12 @@ def writes_to(lr, local):
     return out
 
 
-def version_filtered_item(lr, site, vparam):
+def version_filtered_item(lr, site, vparam, want=None):
     """Is block `site` reached only for an item of an iteration over a node's method table whose own handler list is
     served at the request's version (`for (name, h) in methods { if find(h, version).is_some() { <site> } }` in any
     spelling of the guard)?  -> (ok, blocks of the Iterator::next calls yielding that item, detail)."""
     detail = "no `find_handler_matching_version(handlers, version)` result is known to be Some at this point"
+    first = None
     for fb, ft, state in call_results_known_at(lr, site, FIND):
         if state != "Some":
             continue
@@ -433,8 +434,14 @@ def version_filtered_item(lr, site, vparam):
         iter_ok = bool(nx) and all(methods_iteration(lr, t["args"][0]) is not None for _, _, t in nx) \
             and not callee_allow(hs0, VALUE_PLUMBING + [NEXT]) and not any(a[0] in ("lit", "const") for a in hs0.atoms)
         if ver_ok and iter_ok:
+            if want is not None and nexts != want:
+                # another loop's guard is also known here (e.g. the flag loop that decided 405): keep looking for the guard on *this* item
+                first = first or (True, nexts, "guarded by find_handler_matching_version(handlers of this item, request version) being Some")
+                continue
             return True, nexts, "guarded by find_handler_matching_version(handlers of this item, request version) being Some"
         detail = "a version guard exists but: version is the request's=%s, handlers are those of the current item of the node's method table=%s" % (ver_ok, iter_ok)
+    if first is not None:
+        return first
     return False, set(), detail
 
 
@@ -462,8 +469,8 @@ def served_collection(lr, op, vparam):
         for bb, t2 in writes:
             if not re.search(PUSH, t2["callee"]) or len(t2["args"]) < 2:
                 return {"ok": False, "why": "the collection is written by %s" % t2["callee"], "local": vec}
-            ok, nexts, why = version_filtered_item(lr, bb, vparam)
             vs = lr.slice(t2["args"][1], stop_at_calls=NEXT)
+            ok, nexts, why = version_filtered_item(lr, bb, vparam, want=set(b for _, b, _ in vs.calls(NEXT)))
             same = ok and set(b for _, b, _ in vs.calls(NEXT)) == nexts and not callee_allow(vs, VALUE_PLUMBING + [NEXT])
             if not same:
                 # a push of an element of a served-names source (`for name in served_iter { v.push(name) }`)
